@@ -174,7 +174,8 @@ def build_grid(sc, ds, nm):
 def build_array(spec, nm):
     import xarray as xr
 
-    da = xr.DataArray(np.asarray(spec["values"], dtype=np.float64), dims=[nm(d) for d in spec["dims"]], name=nm(spec.get("name")))
+    da = xr.DataArray(np.asarray(spec["values"], dtype=np.float64), dims=[nm(d) for d in spec["dims"]], name=nm(spec.get("name")),
+                      attrs=dict(spec.get("attrs") or {}))
     if spec.get("chunks"):
         da = da.chunk({nm(d): tuple(c) for d, c in spec["chunks"].items()})
     return da
